@@ -186,3 +186,10 @@ Definition rmx_run (sched : list (nat * bool)) (progs : nat -> list (rg_op mx_en
 
 (* the recursive layer never provokes the errors pika::mutex reports for misuse *)
 Definition mx_is_error (e : mx_ev) : bool := match e with EDead _ | EErr _ => true | _ => false end.
+
+(* nothing can move: every task has finished its program or is blocked inside the underlying lock()'s suspend *)
+Definition rmx_finished (l : rg_local mx_env mx_local) : Prop := g_pc l = GIdle /\ g_todo l = [].
+Definition rmx_blocked_in_lock (g : rg_shared mx_shared) (l : rg_local mx_env mx_local) (t : nat) : Prop :=
+  g_pc l = GLock /\ blocked_in_lock (gu g) (gul l) t.
+Definition rmx_stuck (g : rg_shared mx_shared) (ls : nat -> rg_local mx_env mx_local) : Prop :=
+  forall t, rmx_finished (ls t) \/ rmx_blocked_in_lock g (ls t) t.
